@@ -47,6 +47,7 @@ def r1(ctx, chk):
     f = ix.func("dateparser.date:get_date_from_timestamp")
     # def-use: names bound to int(match.group(k) [or 0])
     grp = {}
+    raw = set()
     for n in iter_own_nodes(f.node):
         if isinstance(n, ast.Assign) and isinstance(n.targets[0], ast.Name) and isinstance(n.value, ast.Call) and ast.unparse(n.value.func) == "int":
             for c in ast.walk(n.value):
@@ -61,16 +62,23 @@ def r1(ctx, chk):
                 # each must become an int: directly in the unpacked expression or by a later int(name ..) rebinding
                 ints = any(isinstance(c, ast.Call) and ast.unparse(c.func) == "int" for c in ast.walk(n.value))
                 for i_, nm in enumerate(names):
-                    later = any(isinstance(m_, ast.Assign) and isinstance(m_.targets[0], ast.Name) and isinstance(m_.value, ast.Call)
-                                and ast.unparse(m_.value.func) == "int" and any(isinstance(x, ast.Name) and x.id == nm for x in ast.walk(m_.value))
-                                for m_ in iter_own_nodes(f.node))
-                    if ints or later:
+                    rebound = any(isinstance(m_, ast.Assign) and isinstance(m_.targets[0], ast.Name) and m_.targets[0].id == nm
+                                  and isinstance(m_.value, ast.Call) and ast.unparse(m_.value.func) == "int"
+                                  and any(isinstance(x, ast.Name) and x.id == nm for x in ast.walk(m_.value)) for m_ in iter_own_nodes(f.node))
+                    converted = any(isinstance(c, ast.Call) and ast.unparse(c.func) == "int" and " ".join(ast.unparse(c).split()) in
+                                    ("int(%s)" % nm, "int(%s or 0)" % nm) for c in iter_own_nodes(f.node))
+                    if ints or rebound or converted:
                         grp[nm] = i_ + 1
+                    if not ints and not rebound:
+                        raw.add(nm)             # the name holds the matched text: only int(<name>) is the number
     chk.floor(rule, len(grp), 3, "names bound to int(match.group(k))")
     if len(grp) < 3:
         return          # nothing to reason about: reported as ANALYSIS-ERROR by the floor
     ft = [n for n in iter_own_nodes(f.node) if isinstance(n, ast.Call) and ast.unparse(n.func).endswith("fromtimestamp")]
-    ok = len(ft) == 1 and ft[0].args and isinstance(ft[0].args[0], ast.Name) and grp.get(ft[0].args[0].id) == 1
+    a0 = ft[0].args[0] if len(ft) == 1 and ft[0].args else None
+    ok = (isinstance(a0, ast.Name) and grp.get(a0.id) == 1 and a0.id not in raw) or (
+        isinstance(a0, ast.Call) and ast.unparse(a0.func) == "int" and len(a0.args) == 1 and isinstance(a0.args[0], ast.Name)
+        and grp.get(a0.args[0].id) == 1)
     chk.ob(rule, "fromtimestamp receives group 1 (the 10-digit seconds) and nothing else", ok, "",
            key={"construct": "seconds argument"}, file=f.file, function=f.qual, line=f.node.lineno)
     ms = None
@@ -84,7 +92,13 @@ def r1(ctx, chk):
             for k in n.keywords:
                 if k.arg == "microseconds":
                     ms = k.value
-    syms = {"g%d" % g: {name} for name, g in grp.items()}
+    syms = {"g%d" % g: ({"int(%s)" % name, "int(%s or 0)" % name} if name in raw else {name}) for name, g in grp.items()}
+    for _ in range(3):          # a local that only names the sum
+        if isinstance(ms, ast.Name):
+            defs = [n for n in iter_own_nodes(f.node) if isinstance(n, ast.Assign) and len(n.targets) == 1 and isinstance(n.targets[0], ast.Name)
+                    and n.targets[0].id == ms.id]
+            if len(defs) == 1 and ms.id not in grp:
+                ms = defs[0].value
     w3 = (shapes.get("RE_SEARCH_TIMESTAMP") or {}).get("g3", 3)
     if ms is None:
         chk.ob(rule, "the millisecond/microsecond digits reach the result as an integer microsecond count", False,
